@@ -194,6 +194,34 @@ CHECKS.append(dict(
     technique='property-based testing (Hypothesis): differential between model functions, derivative-vs-published-term relation',
 ))
 
+CHECKS.append(dict(
+    id='C04',
+    text='Random differentiable likelihood formulas on generated tables (2-10, thorough 24 rows) with generated weight formulas: '
+         'BIOGEME.calculate_likelihood must equal the sum over simulate rows of weight x value (and the reference semantics), '
+         'its scaled variant that sum over the sample size, for thread counts {1, 2, k <= N, N, N+1..3, 0} with three repeated '
+         'evaluations each, after a random row permutation, and as the sum over a random partition into 2-4 parts each given to '
+         'its own BIOGEME object; gradient, Hessian and BHHH (scaled and unscaled) must be the weighted sums of the '
+         'per-observation derivatives of the same formula.',
+    note='Thread interleavings inside the engine are not controllable from Python: the thread count is explored as a configuration '
+         'and every evaluation is repeated. Per-observation derivatives come from the same engine, so only aggregation is judged. '
+         'BHHH convention sum_n w_n g_n g_n^T. Formulas carry no shared sub-trees (engine aliasing finding of C02).',
+    technique='property-based testing (Hypothesis): metamorphic relations (permutation, partition, thread count) + sum-of-simulated-rows oracle',
+))
+CHECKS.append(dict(
+    id='C07',
+    text='Simulated weighted multinomial-logit estimation problems (concave; 2-4 alternatives with arbitrary labels, 2-4 free '
+         'parameters with adversarial names, optional fixed parameter, 25-60 rows) under bound configurations {none, inactive, '
+         'one-sided, active at the optimum}, run through estimate()/quick_estimate() with 3-4 (thorough: all nine) algorithm names: '
+         'bounds respected by bound-aware algorithms; final log likelihood >= initial, == likelihood recomputed at the returned '
+         'estimates (numpy closed form and a fresh BIOGEME object); reported g, H, BHHH == derivatives at that point; when '
+         'convergence is reported on a well-conditioned problem the projected gradient vanishes, the value equals the reference '
+         'maximum and all converged algorithms agree; estimates written back into the formulas, fixed parameters untouched.',
+    note='Reference maximiser: L-BFGS-B polished by projected Newton on numpy closed forms; separated data (maximum at infinity) '
+         'are not judged; line-search / trust-region algorithms (documented to ignore bounds) only run without bounds; tolerance '
+         '1e-7, max 500 iterations.',
+    technique='property-based testing (Hypothesis): generated concave problems vs closed-form reference likelihood/KKT conditions, differential across algorithms',
+))
+
 _claimed = {c['id'] for c in CHECKS}
 NOT_APPLICABLE = [
     dict(property_id=p, reason='check not built yet (work in progress; planned in DESIGN.md section 3)')
